@@ -894,6 +894,25 @@ def wrapper_cases(rng: random.Random) -> List[TCase]:
     return out
 
 
+def naked_cases(rng: random.Random) -> List[TCase]:
+    """Container annotations that say nothing about their contents (dict, Dict, Dict[Any, Any], list, List[Any], set,
+    tuple, Tuple[Any, ...]): the value must still be exactly that container - subclasses of it, other containers and
+    scalars are not - bare, under Optional, inside a list and inside a dict value; both resolution modes."""
+    out: List[TCase] = []
+    g = Gen(rng)
+    anys = [("ANakedDict",), ("ADict", ("AAny",), ("AAny",)), ("ANakedList",), ("AList", ("AAny",)), ("ANakedSet",), ("ASet", ("AAny",)),
+            ("ANakedTuple",), ("ATupleU", ("AAny",))]
+    xs = [("VDict", []), ("VDict", [P(S("k"), I(1))]), G.DICTSUB, ("VSub", N(G.C_DICT), ("VDict", [])), ("VList", []), ("VList", [I(1), S("a")]), G.LISTSUB,
+          ("VSet", []), ("VSet", [I(1)]), ("VTuple", []), ("VTuple", [I(1), S("a")]), G.NONE, I(1), S("ab"), G.STRSUB, G.OBJ]
+    for a in anys:
+        for x in xs:
+            for aa, wx in ((a, x), (("AUnion", [a, ("ANone",)]), x), (("AList", a), ("VList", [x])),
+                           (("ADict", ("AScalar", ("KStr",)), a), ("VDict", [P(S("k"), x)]))):
+                for sig in (False, True):
+                    out.append(TCase(g.classes, aa, wx, sig, "naked"))
+    return out
+
+
 def record_cases(rng: random.Random) -> List[TCase]:
     """Record classes whose requiredness / layout is not the plain one: TypedDicts of either totality with
     Required / NotRequired keys, dataclasses that inherit their first fields from a slots dataclass
@@ -989,7 +1008,7 @@ def record_cases(rng: random.Random) -> List[TCase]:
 def gen_cases(rng: random.Random, n: int) -> List[TCase]:
     """The explicit families, a stream that is the same on every run (private generator: what it exhibits does not
     depend on how many draws the families above happen to consume), and n cases from the run's own seed."""
-    out: List[TCase] = literal_cases(rng) + wrapper_cases(rng) + record_cases(rng)
+    out: List[TCase] = literal_cases(rng) + wrapper_cases(rng) + record_cases(rng) + naked_cases(rng)
     out += random_cases(random.Random(70907), 700)
     return out + random_cases(rng, n)
 
